@@ -293,3 +293,14 @@ package aml
 //@   loop 2 (argIndex != InvalidIndex) invariant p.objTree == old(p.objTree) && walkOK(p) && pOpcodeTable == old(pOpcodeTable) && deferVisits >= old(deferVisits) + 1 && (argIndex != InvalidIndex ==> live(p.objTree, argIndex))
 //@   loop 2 invariant alive: noneFreed(p.objTree)
 //@   at after call parseDeferredBlocks 1: use live(p.objTree, argIndex); wfSlot(p.objTree, argIndex)
+
+// ClosestNamedAncestor (C13): the parent walk never dereferences a dead or missing object and
+// never indexes past the opcode table; a result other than InvalidIndex is a live object whose
+// opcode is a named one and that is not a Scope directive; nil yields InvalidIndex.
+// (Termination needs acyclicity of the parent relation, which wfTree does not state.)
+//@ func (tree *ObjectTree) ClosestNamedAncestor(obj *Object) (r uint32)
+//@   property C13
+//@   requires wfTree(tree) && (obj != nil ==> member(tree, obj)) && len(pOpcodeTable) >= 0 && forall(i, uint32, live(tree, i) ==> int(ob(tree, i).infoIndex) < len(pOpcodeTable))
+//@   ensures nilobj: obj == nil ==> r == InvalidIndex
+//@   ensures named: r != InvalidIndex ==> live(tree, r) && ob(tree, r).opcode != pOpScope && pOpcodeTable[ob(tree, r).infoIndex].flags&pOpFlagNamed != 0
+//@   loop 1 (ancestorIndex != InvalidIndex) invariant ancestorIndex != InvalidIndex ==> live(tree, ancestorIndex)
